@@ -165,31 +165,37 @@ func c07BinOps(c *Ctx, p *Prog, fn *ssa.Function, dispatch ssa.Value) {
 		'&': token.AND, '|': token.OR, '^': token.XOR, '=': token.EQL, '>': token.GTR, '<': token.LSS}
 	seen := map[rune]bool{}
 	helperOrder := map[*ssa.BinOp]bool{}
-	eachInstr(fn, func(in ssa.Instruction) {
+	// the operators may be applied in TParm's own cases or in a helper the case hands the operator byte
+	// and the two operands to (`stk.Push(binaryOp(ch, ai, bi))`): the helper's parameters stand for the
+	// arguments of that call
+	for _, d := range deepInstrs(p, fn, 1, nil) {
+		d := d
+		in := d.in
 		bo, ok := in.(*ssa.BinOp)
 		if !ok {
-			return
+			continue
 		}
-		cx, cy := popIntResult(bo.X), popIntResult(bo.Y)
+		boX, boY := d.bindVal(bo.X), d.bindVal(bo.Y)
+		cx, cy := popIntResult(boX), popIntResult(boY)
 		viaHelper := false
 		if cx == nil || cy == nil {
 			// the two pops may live in a helper that returns (left, right, rest): resolve the roles of
 			// its results from the helper's own body
-			ex, okx := bo.X.(*ssa.Extract)
-			ey, oky := bo.Y.(*ssa.Extract)
+			ex, okx := boX.(*ssa.Extract)
+			ey, oky := boY.(*ssa.Extract)
 			if !okx || !oky || ex.Tuple != ey.Tuple {
-				return
+				continue
 			}
 			hc, isCall := ex.Tuple.(*ssa.Call)
 			if !isCall {
-				return
+				continue
 			}
 			roles := popPairSummary(p, hc.Call.StaticCallee())
 			if roles == nil {
-				return
+				continue
 			}
 			if roles[ex.Index] == 0 || roles[ey.Index] == 0 {
-				return
+				continue
 			}
 			viaHelper = true
 			cx, cy = nil, nil
@@ -201,18 +207,18 @@ func c07BinOps(c *Ctx, p *Prog, fn *ssa.Function, dispatch ssa.Value) {
 		// which operator byte guards this block?
 		var opByte rune = -1
 		for _, g := range rawGuardsAt(bo.Block()) {
-			if cmp, ok := g.Cond.(*ssa.BinOp); ok && cmp.Op == token.EQL && g.Positive && cmp.X == dispatch {
+			if cmp, ok := g.Cond.(*ssa.BinOp); ok && cmp.Op == token.EQL && g.Positive && (cmp.X == dispatch || d.bindVal(cmp.X) == dispatch) {
 				if k, ok := constInt(cmp.Y); ok {
 					opByte = rune(k)
 				}
 			}
 		}
 		if opByte < 0 {
-			return
+			continue
 		}
 		tok, isOp := want[opByte]
 		if !isOp {
-			return
+			continue
 		}
 		seen[opByte] = true
 		key := fmt.Sprintf("binop:%%%c", opByte)
@@ -233,7 +239,7 @@ func c07BinOps(c *Ctx, p *Prog, fn *ssa.Function, dispatch ssa.Value) {
 			detail += fmt.Sprintf(", divisor guarded non-zero: %v", okDiv)
 		}
 		c.Check(order && okTok && okDiv, "C07-R2", key, p.pos(bo.Pos()), detail)
-	})
+	}
 	for r := range want {
 		if !seen[r] {
 			c.Fail("C07-R2", fmt.Sprintf("binop:%%%c", r), p.pos(fn.Pos()), "no handler of the form push(pop2 OP pop1) found for this operator")
